@@ -442,12 +442,14 @@ def cyc_nets():
         n = s.wire('n', 1)
         BitsLSBF(s, 'bits', a, [b0, b1])
         Not(s, 'n', b0, n)
+        k = s.wire('k', 1)
+        Constant(s, 'k', 1, k)
         if cut:
             q = s.wire('q', 1)
             Reg(s, 'r', n, q)
-            ConcatenateLSBF(s, 'cat', [q, b1], a)
+            ConcatenateLSBF(s, 'cat', [q, k], a)
         else:
-            ConcatenateLSBF(s, 'cat', [n, b1], a)
+            ConcatenateLSBF(s, 'cat', [n, k], a)
     C['cycle through a multi-output leaf'] = multi
     return C
 
@@ -518,8 +520,8 @@ def tasks_for(tier):
         tasks.append(('stateless? %s' % nm, stateless_task, {'mk': mk, 'stateless': st}))
     for nm in cyc_nets():
         tasks.append(('reject %s' % nm, cyc_task, {'net': nm}))
-    if not quick:
-        tasks.append(('deep chain 1100', deep_chain_task, {'n': 1100}))
+    tasks.append(('deep chain 1100', deep_chain_task, {'n': 1100}))
+    tasks.append(('deep chain 900', deep_chain_task, {'n': 900}))
     return tasks
 
 
